@@ -515,10 +515,11 @@ fn run_edge(rep: &mut Report, e: &Edge, tuples: &[Vec<Value>], stores: &[RecIo])
     // helper declarations only when the candidate mentions them (keeps the per-candidate compile small)
     let helpers = if e.text.contains("h_") { gen::HELPERS } else { "" };
     let text = format!("{PRELUDE}{helpers}{}{}\n", e.extra_decls, e.text);
-    let machine = match vmrun::compile_text(&text, Ffi::None) {
+    let machine = match vmrun::compile_text_quiet(&text, Ffi::None) {
         Ok(m) => Machine::from_module(m).unwrap_or_else(|_| mcx::machinery_error("module version")),
-        Err(msg) => {
-            if msg.starts_with("front-end panic") {
+        Err(panicked) => {
+            if panicked {
+                let msg = vmrun::compile_text(&text, Ffi::None).err().unwrap_or_default();
                 // host panic of the compiler on source text: C27's subject; recorded, not judged here
                 rep.count("front_end_panics", 1);
                 rep.outcome("front_end_panic", 1);
@@ -597,6 +598,17 @@ fn edges(tier: Tier) -> Vec<Edge> {
     let mut seen = std::collections::HashSet::new();
     v.retain(|e| seen.insert((e.extra_decls.len(), e.text.clone())));
     v
+}
+
+/// Full texts of the fact / action candidate documents (used by C28 as corpus; the compiler filters).
+pub fn fact_docs() -> Vec<String> {
+    let mut v = Vec::new();
+    e5_facts(&mut v);
+    let mut seen = std::collections::HashSet::new();
+    v.into_iter()
+        .map(|e| format!("{PRELUDE}{}{}\n", e.extra_decls, e.text))
+        .filter(|t| seen.insert(t.clone()))
+        .collect()
 }
 
 pub fn run(args: &Args) {
